@@ -396,7 +396,8 @@ func c10ExecLeaderInner(sc c10Leader, numVb int) (numbering string, partition st
 			}
 		}
 		for v, o := range owner {
-			if o == "" && partition == "" && numbering == "" {
+			if o == "" && partition == "" {
+				// (a live member that was never given a numbering streams nothing: its share of the bucket is nobody's)
 				partition = fmt.Sprintf("vBucket %d has no owner at the end of the history", v)
 			}
 		}
@@ -1001,6 +1002,104 @@ func init() {
 			return ""
 		}
 		return d
+	})
+}
+
+// ---------- (e) a follower across leader hand-overs: a numbering is announced only when it differs from the one in effect ----------
+// The follower-side service discovery receives assignments (what Handler.Rebalance does with the leader's RPC) and, now and
+// then, a new leader (what OnBecomeFollower does: DontBeLeader, RemoveAll, RemoveLeader, AssignLeader). A new leader that
+// assigns the numbering already in effect causes no announcement; one that assigns another one causes exactly one.
+
+type c10HandStep struct {
+	Op string `json:"op"` // set | handover
+	M  int    `json:"m,omitempty"`
+	T  int    `json:"t,omitempty"`
+}
+
+type c10Hand struct {
+	Steps []c10HandStep `json:"steps"`
+}
+
+func c10ExecHand(sc c10Hand) string {
+	bus := EventBus.New()
+	var pubs []membership.Model
+	_ = bus.Subscribe(helpers.MembershipChangedBusEventName, func(m *membership.Model) { pubs = append(pubs, *m) })
+	sd := servicediscovery.NewServiceDiscovery(laConfig(), bus)
+	var want []membership.Model
+	var cur *membership.Model
+	leaders := 0
+	for i, st := range sc.Steps {
+		switch st.Op {
+		case "handover":
+			leaders++
+			sd.DontBeLeader()
+			sd.RemoveAll()
+			sd.RemoveLeader()
+			sd.AssignLeader(servicediscovery.NewService(&fakeFollower{name: fmt.Sprintf("leader%d", leaders), rpcBad: map[int]bool{}}, fmt.Sprintf("leader%d", leaders), int64(leaders)))
+		case "set":
+			sd.SetInfo(st.M, st.T)
+			m := membership.Model{MemberNumber: st.M, TotalMembers: st.T}
+			if cur == nil || *cur != m {
+				want = append(want, m)
+				mm := m
+				cur = &mm
+			}
+		}
+		if len(pubs) != len(want) {
+			return fmt.Sprintf("after step %d (%+v) the follower has announced %v; a numbering is announced only when it differs from the one in effect: %v expected", i, st, pubs, want)
+		}
+	}
+	for i := range want {
+		if pubs[i] != want[i] {
+			return fmt.Sprintf("announcement %d is %v, want %v", i, pubs[i], want[i])
+		}
+	}
+	return ""
+}
+
+func TestC10_Handover(t *testing.T) {
+	rapid.Check(t, func(rt *rapid.T) {
+		var sc c10Hand
+		var last *c10HandStep
+		same := false
+		for i, k := 0, rapid.IntRange(1, 12).Draw(rt, "steps"); i < k; i++ {
+			switch rapid.IntRange(0, 3).Draw(rt, "kind") {
+			case 0:
+				sc.Steps = append(sc.Steps, c10HandStep{Op: "handover"})
+			case 1:
+				if last != nil { // the (new) leader assigns what is in effect already
+					sc.Steps = append(sc.Steps, *last)
+					if i > 0 && sc.Steps[len(sc.Steps)-2].Op == "handover" {
+						same = true
+					}
+					continue
+				}
+				fallthrough
+			default:
+				tt := rapid.IntRange(2, 8).Draw(rt, "t")
+				st := c10HandStep{Op: "set", M: rapid.IntRange(2, tt).Draw(rt, "m"), T: tt}
+				sc.Steps = append(sc.Steps, st)
+				last = &st
+			}
+		}
+		if d := c10ExecHand(sc); d != "" {
+			violation(rt, "C10", "c10hand", sc, "%s", d)
+		}
+		labs := []string{"handover_cases"}
+		if same {
+			labs = append(labs, "new_leader_assigns_numbering_in_effect")
+		}
+		record("C10", sc, same, labs...)
+	})
+}
+
+func init() {
+	registerReplay("c10hand", func(raw json.RawMessage) string {
+		var sc c10Hand
+		if err := json.Unmarshal(raw, &sc); err != nil {
+			return err.Error()
+		}
+		return c10ExecHand(sc)
 	})
 }
 
